@@ -41,6 +41,7 @@ package metrics
 
 //@ type Extractor
 //@   repinv self.profileFactory != nil
+//@   repinv self.logger != nil
 
 //@ func NewExtractor
 //@   property C20
@@ -56,7 +57,7 @@ package metrics
 //@ func (e *Extractor) ExtractMetrics
 //@   property C20
 //@   safety
-//@   requires e != nil
+//@   requires e != nil && ctx != nil
 //@   modifies Extractor.failures, Extractor.extractionCount
 //@   ensures res == nil || finiteMetrics(res)
 
@@ -64,6 +65,6 @@ package metrics
 //@   property C20
 //@   refines ports.MetricsExtractor.ExtractFromChunk
 //@   safety
-//@   requires e != nil
+//@   requires e != nil && ctx != nil
 //@   modifies Extractor.failures, Extractor.extractionCount
 //@   ensures res == nil || finiteMetrics(res)
